@@ -446,6 +446,7 @@ impl Worterbuch {
 
     pub fn pget(&self, pattern: &str) -> WorterbuchResult<KeyValuePairs> {
         let path: Vec<KeySegment> = KeySegment::parse(pattern);
+        check_multi_wildcard_position(pattern, &path)?;
         Ok(self.store.get_matches(&path)?)
     }
 
@@ -539,6 +540,7 @@ impl Worterbuch {
         live_only: bool,
     ) -> WorterbuchResult<(Receiver<PStateEvent>, SubscriptionId)> {
         let path: Vec<KeySegment> = KeySegment::parse(&pattern);
+        check_multi_wildcard_position(&pattern, &path)?;
         let (tx, rx) = channel(self.config.channel_buffer_size);
         let subscription = SubscriptionId::new(client_id, transaction_id);
         let subscriber = Subscriber::new(
@@ -920,6 +922,7 @@ impl Worterbuch {
         }
 
         let path: Vec<KeySegment> = KeySegment::parse(&pattern);
+        check_multi_wildcard_position(&pattern, &path)?;
 
         let (deleted, ls_subscribers) = self.store.delete_matches(&path)?;
 
@@ -1529,6 +1532,20 @@ fn check_for_read_only_key(key: &str, client_id: ClientId) -> WorterbuchResult<(
     // TODO potentially whitelist more fields clients may change
 
     Err(WorterbuchError::ReadOnlyKey(key.to_owned()))
+}
+
+/// A multi-level wildcard is only legal as the last segment of a pattern. The store only notices an
+/// illegal one if its traversal happens to reach it, so patterns are checked up front.
+fn check_multi_wildcard_position(pattern: &str, path: &[KeySegment]) -> WorterbuchResult<()> {
+    if path
+        .iter()
+        .rev()
+        .skip(1)
+        .any(|segment| segment == &KeySegment::MultiWildcard)
+    {
+        return Err(WorterbuchError::IllegalMultiWildcard(pattern.to_owned()));
+    }
+    Ok(())
 }
 
 fn escape_wildcards(pattern: &str) -> String {
